@@ -104,8 +104,8 @@ CLAIMED = {
          'nn.jvp (variable_tangents), nn.grad, nn.value_and_grad, nn.custom_vjp; primal, cotangents / tangents, aux and variables afterwards compared in Coq and with jax.vjp / jvp / grad of the '
          'pure function (variables, inputs) -> module.apply on the real code; every case also as a history of 2-4 direct / differentiated calls on one sub-module bound in setup (scopes live across '
          'the calls), compared with the model\'s history and with the same sequence of pure Module.apply calls.',
-    note='Trusted: Coq kernel, vm_compute, harness, jaxcompat, jax.vjp / jvp / grad. Scalars only (no pytree-shaped primals, reduce_axes unused). custom_vjp: forward value and the effect of the '
-         'user rule (observed by differentiating through it with the non-selected collections held constant) are correspondence-only. No axioms.',
+    note='Trusted: Coq kernel, vm_compute, harness, jaxcompat, jax.vjp / jvp / grad. Scalars only (no pytree-shaped primals, reduce_axes unused). custom_vjp is modelled with the rule the correspondence uses (the user rule returns fixed multiples of the true cotangents; observed by '
+         'differentiating through it with the non-selected collections held constant): forward value unchanged, routing and rule application are theorems; lifted gradients differentiated again (gradient penalty) are an oracle family. No axioms.',
     technique='Coq proof (routing by filter, polynomial derivative and adjointness by ring) + per-run correspondence by vm_compute + jax autodiff oracle on the pure apply function',
     ref='DESIGN.md section 5, C07'),
   'C08': dict(
